@@ -19,6 +19,13 @@ FIXED=[
  ("F-C06-unwritten-block",["C06","C04","C15"],c("recovery stopped scanning a file at the first block"),"recovery treated the first all-zero unit of a file as the end of its data; blocks allocated after an allocated-but-unwritten block vanished on restart","batch(x,[]) as first op on topic x; append(t) x2; reopen -> t empty"),
  ("F-C06-multi-unit",["C06","C15"],c("recovery mis-parsed blocks spanning several units"),"recovery scanned one unit at a time and mis-parsed the interior of a block spanning several units; following blocks were lost","append(first); append(1.5 blocks); append(last); reopen -> last lost"),
  ("F-C02-alo-offset-read",["C02","C06"],c("an offset-addressed batch read with checkpoint=true"),"AtLeastOnce: batch_read with an explicit start offset and checkpoint=true moved the shared consumer cursor","[AtLeastOnce] append x3; restart; batch_read(a,300,ckpt,Some(0)); read_next -> second entry"),
+ ("F-C14-dot-keys",["C14"],c("the namespace keys"),"the keys \".\" and \"..\" mapped to the data directory itself / its parent","new_for_key(\"..\"); append -> WAL file created in the parent of the data dir"),
+ ("F-C12-counter-inflation",["C12","C02"],c("a fully consumed block was counted"),"a fully consumed block was counted towards its file's reclamation threshold on every poll / peek starting at its end; the file was deleted with unconsumed entries","file 1 = a,a,b,a; batch_read(a,1); 3 peeks; reclaim; restart -> entries lost"),
+ ("F-C06-empty-sealed-block",["C06","C15"],c("an empty sealed block in the reader chain"),"an empty sealed block in the reader chain (first entry larger than the initial block) shifted the persisted chain index after restart: unread entries lost","append(a,>block); batch(a,[half,half,127]); read_next; restart -> count 0, 3 entries lost"),
+ ("F-C07-short-leftovers",["C07","C11"],c("recovery panicked on the leftovers"),"mmap backend: recovery panicked on an empty WAL file left by a crash between create and set_len, and on a leftover *_index.db.tmp","crash right after File::create of a new WAL file; reopen with the mmap backend"),
+ ("F-C07-overread",["C07","C06"],c("recovery read past the end of a nearly full last block"),"mmap backend: recovery read a header past the end of the last block of a file when less than a header of room was left: panic, instance cannot be reopened","last block of a file filled to within 255 bytes; reopen with the mmap backend"),
+ ("F-C10-cursor-dirsync",["C10"],c("the persisted read cursor was renamed"),"the cursor index was renamed into place without a directory sync: an acknowledged StrictlyAtOnce consumption could be undone by a power loss","[SyncEach] append; read_next -> power cut -> entry redelivered"),
+ ("F-C18-offset-overflow",["C18"],c("a rollover whose sealed count overflowed"),"RolloverTopic with a count that overflows the cumulative sealed offset wrapped it (panic in debug builds)","CreateTopic a; Rollover(count 1); Rollover(count u64::MAX) -> offset 0"),
 ]
 OPEN=[
  # (id, [properties], title, witness)
